@@ -27,7 +27,7 @@ CHEAP = ['str', 'fmt_h', 'fmt_A', 'fmt_m', 'fmt_a', 'atoms_order', 'chiral_morga
 MEDIUM = ['linear_fingerprint', 'morgan_fingerprint', 'automorphism', 'self_sub', 'self_sub_all', 'kekule', 'thiele',
           'canonicalize', 'neutralize']
 EXPENSIVE = ['standardize', 'enumerate_kekule', 'enumerate_tautomers']
-N_SMARTS = 30
+N_SMARTS = 36
 EXTRA_SMILES = [
     'C[C@H](N)C(=O)O', 'C[C@@H](O)[C@H](O)C', 'C/C=C/C', 'C/C=C\\Cl', 'CC=[C@]=CCl', 'C[C@H]1CC[C@@H](C)CC1', 'C[C@H]1C[C@@H]1C',
     'C[C@H](O)[C@H](O)[C@@H](C)O', 'C/C=C/[C@H](O)/C=C\\C', 'O[C@H]1C[C@@H](O)C1', 'C[C@H]1C[C@H](C)C[C@H](C)C1',
@@ -184,8 +184,23 @@ def minimise(key, jobs, a, b, scratch, budget_n=40):
 
     budget = [budget_n]
     budget[0] -= 1
+    kidx = 0
     if not diverges(pair):
-        return None
+        # the divergence needs other molecules / earlier events (first-use order of process-global state):
+        # keep the whole corpus, cut each schedule after the last observation of the key, then ddmin the events
+        def cut(job):
+            last = max((n for n, e in enumerate(job['events']) if len(e) > 2 and e[1] == i and e[2] == name), default=-1)
+            return dict(job, events=job['events'][:last + 1])
+        pair = [cut(jobs[a])] if a == b else [cut(jobs[a]), cut(jobs[b])]
+        kidx = i
+
+        def diverges(pair):   # noqa: F811
+            res = [(k, run_job(j, f'min{k}', scratch)) for k, j in enumerate(pair)]
+            _, bad = compare(res)
+            return (i, name) in bad
+        budget[0] -= 1
+        if not diverges(pair):
+            return None, 0
     for k in range(len(pair)):
         def test(events, k=k):
             cand = list(pair)
@@ -193,7 +208,7 @@ def minimise(key, jobs, a, b, scratch, budget_n=40):
             return diverges(cand)
         ev = core.ddmin(pair[k]['events'], test, budget)
         pair[k] = dict(pair[k], events=ev)
-    return pair
+    return pair, kidx
 
 
 def replay_file(path, scratch):
@@ -201,10 +216,10 @@ def replay_file(path, scratch):
         t = json.load(f)
     res = [(k, run_job(j, f'replay{k}', scratch)) for k, j in enumerate(t['jobs'])]
     by_key, bad = compare(res)
-    name = t['key'][1]
-    if (0, name) in bad:
-        cls, _, _ = classify(bad[(0, name)])
-        return {'class': f'{cls}:{name}', 'detail': str(bad[(0, name)])[:400]}, t
+    k = (t['key'][0], t['key'][1])
+    if k in bad:
+        cls, _, _ = classify(bad[k])
+        return {'class': f'{cls}:{k[1]}', 'detail': str(bad[k])[:400]}, t
     return None, t
 
 
@@ -302,8 +317,9 @@ def _main(a, scratch):
             if g not in groups:
                 groups[g] = (key, obs, ea, eb)
         for (cls, oname), (key, obs, ea, eb) in sorted(groups.items())[:6]:
+            kidx = 0
             try:
-                pair = minimise(key, jobs, ea, eb, scratch)
+                pair, kidx = minimise(key, jobs, ea, eb, scratch)
             except Exception as e:
                 errors.append((-1, 'minimise failed: ' + traceback.format_exc()[-800:]))
                 pair = None
@@ -312,7 +328,7 @@ def _main(a, scratch):
                 found.append({'class': f'{cls}:{key[1]}', 'key': [0, key[1]], 'jobs': None, 'unreproduced': True,
                               'molecule': corpus[key[0]], 'detail': str(obs)[:300]})
                 continue
-            found.append({'class': f'{cls}:{key[1]}', 'key': [0, key[1]], 'jobs': pair, 'molecule': corpus[key[0]],
+            found.append({'class': f'{cls}:{key[1]}', 'key': [kidx, key[1]], 'jobs': pair, 'molecule': corpus[key[0]],
                           'detail': str(sorted({(t, d) for _, t, d in obs}))[:300]})
         if time.time() - t0 > (1500 if tier == 'thorough' else 400):
             probes['stopped_early_wall'] += 1
